@@ -12,7 +12,8 @@ def run(tier, seed):
     n = 2500 if tier == "thorough" else 300
     return cw.run_shared(PROP, tier, seed, n, RULE, floors={"generated": 100, "c04_load_checks": 100},
                          extra_case_kw={"allow_sync_subscription": True}, case_hook=cw.with_custom_operations,
-                         dirty_sets=[[], [], [], [], [], [], [], [], ["strlit.single_quote"], ["strlit.block"], ["shape.iface_hierarchy"]])
+                         dirty_sets=[[], [], ["frag.many"], [], [], ["frag.many"], [], [], ["strlit.single_quote"], ["strlit.block"], ["shape.iface_hierarchy"],
+                                     ["names.keyword"], ["names.pydantic_attr"], ["names.leading_underscore"]])
 
 
 def replay(data):
